@@ -25,8 +25,9 @@ FINISH = dict(
 )
 
 LC_CFG = """SPECIFICATION Spec
-CONSTANTS Names = {"DF002", "DF009_01", "NSat", "PRN_01", "_payload", "_immutable", "fresh"}
+CONSTANTS Names = {"DF002", "NSat", "_payload", "fresh"}
  Values = {0, 1}
+ Objs = {1, 2}
 PROPERTY Frozen
 PROPERTY AssignRefused
 INVARIANT NoObjectOnFailure
@@ -45,7 +46,7 @@ def run(tier, rep):
     res = tlc.run("Lifecycle", LC_CFG, workers=4, heap="1g", coverage=True)
     tlc.must_ok(res, "Lifecycle")
     cov = res.action_coverage()
-    if any(cov.get(a, (0, 0))[1] == 0 for a in ("BuildSet", "Freeze", "FailConstruct", "SetAttr", "Read")):
+    if any(cov.get(a, (0, 0))[1] == 0 for a in ("BeginConstruct", "BuildSet", "Freeze", "FailConstruct", "SetAttr", "Read")):
         raise tlc.MachineryFailure(f"Lifecycle: action never taken: {cov}")
     rep.add_tlc(res)
 
@@ -92,6 +93,57 @@ def run(tier, rep):
                 f["name"] = d[0]
                 f["why"] = d[1] if len(d) > 1 else ""
             rep.reject(v[1], f, {**de.replay_of(r, meta, v), "ops": [(o["name"], o["raised"]) for o in r["ops"]]})
+    # (C) attacks on finished messages WHILE other threads are inside a constructor
+    #     (Lifecycle.tla: SetAttr(o1) is refused also when phase[o2] = "building")
+    import sys
+    import threading
+
+    from pyrtcm import RTCMMessage
+    from pyrtcm.exceptions import RTCMMessageError
+
+    big = [pl for _, pl in cases if len(pl) > 150][:6] or [cases[0][1]]
+    victims = [m for m in corp.msgs.values() if m is not None][:8]
+    digests = [message_rec.state_digest(m) for m in victims]
+    stop = threading.Event()
+
+    def builder():
+        while not stop.is_set():
+            for pl in big:
+                try:
+                    RTCMMessage(payload=pl)
+                except Exception:  # pylint: disable=broad-except
+                    pass
+
+    old = sys.getswitchinterval()
+    sys.setswitchinterval(1e-6)
+    ths = [threading.Thread(target=builder) for _ in range(2)]
+    for t in ths:
+        t.start()
+    accepted = []
+    try:
+        for k in range(6000 if quick else 60000):
+            m = victims[k % len(victims)]
+            name = ["DF002", "_payload", "fresh_name", "_immutable", "payload"][k % 5]
+            try:
+                setattr(m, name, k)
+                accepted.append((name, "accepted"))
+            except RTCMMessageError:
+                pass
+            except BaseException as err:  # pylint: disable=broad-except
+                accepted.append((name, type(err).__name__))
+            if accepted:
+                break
+    finally:
+        stop.set()
+        for t in ths:
+            t.join()
+        sys.setswitchinterval(old)
+    rep.cov["evaluations"] += k + 1
+    if accepted or [message_rec.state_digest(m) for m in victims] != digests:
+        rep.reject("FrozenWhileOthersConstruct", {"engine": "threads", "name": accepted[0][0] if accepted else "?"},
+                   {"engine": "threads", "what": "assignment on a finished message while other threads were constructing messages",
+                    "outcome": accepted[:3], "attempts": k + 1})
+    rep.notes["concurrent_attempts"] = k + 1
     rep.notes["assignment_attempts"] = nops
     r = next(r for r in corp.recs if r["ops"])
     rep.sample({"payload_hex": bytes(r["p"]).hex()[:60], "attempts": [(o["name"], o["raised"]) for o in r["ops"]]})
